@@ -405,6 +405,24 @@ Theorem C02_frag_transfer_holds : C02_frag_transfer.
 Proof. exact frag_transfer_correct. Qed.
 Print Assumptions C02_frag_transfer_holds.
 
+(* ================================================================ no history *)
+(* "for every call, whatever failed before": what write() sends and reports ([write_plan], [write_outcome])
+   is a Gallina FUNCTION of the call's arguments: the driver configuration, the parsed requests with their
+   values, and the sequence counter [v] — the one piece of driver state a call reads that earlier calls
+   (failed or not) have advanced; its freshness is property C17 and no theorem above depends on its value
+   beyond 0 <= count < 65536.  Nothing else is carried from one write() to the next: the merge table of bit
+   writes, the packets, their masks and messages are created inside the call.  So "run_write from the state
+   left by any earlier call = run_write from a fresh state" holds in the model by construction; it is a
+   fact about the CODE (no packet, mask or merge table kept on the driver), tied on every run by the
+   harness's histories: a multi-request write failing at its k-th send / receive, re-open, further calls
+   held to the full oracle and to frame-for-frame correspondence; two drivers alternating on one target. *)
+Remark C02_no_history : forall cfg v reqs cfg' v' reqs',
+  cfg = cfg' -> v = v' -> reqs = reqs' -> write_plan cfg v reqs = write_plan cfg' v' reqs'.
+Proof. intros; subst; reflexivity. Qed.
+Remark C02_outcome_no_history : forall out sts out' sts',
+  out = out' -> sts = sts' -> write_outcome out sts = write_outcome out' sts'.
+Proof. intros; subst; reflexivity. Qed.
+
 (* ================================================================ the property *)
 Definition C02_proved : Prop :=
   C02_rmw_effect /\ C02_encode_value /\ C02_build_once /\ C02_layout /\ C02_fragments /\ C02_applied_once
